@@ -8,7 +8,7 @@ ALLOWED_AXIOMS = {"Classical_Prop.classic", "ClassicalDedekindReals.sig_not_dec"
                   "ClassicalDedekindReals.sig_forall_dec",
                   "FunctionalExtensionality.functional_extensionality_dep"}
 MANIFEST = {
-    "text": "Coq model of the VISS v2 front-end on the broker core (Model/Viss.v: token resolution per request, get / set / subscribe / unsubscribe, the text codec Value::try_into_type with Rust's integer and boolean grammars and correctly rounded decimal float literals, event conversion). Theorems: a VISS get yields a datapoint exactly when kuksa.val.v2 GetValue with the same token does, the same stored datapoint, and is refused for the same cause; without a token / with one that does not verify every data request (get, set, subscribe) is answered token_missing / token_invalid (static metadata is served without a token: the server's documented choice, no value is involved); a set is accepted iff the path is an actuator, the text parses to its data type and the core accepts the typed value as a target update from that token (the very update v1 Set issues); a refused set leaves the store unchanged; every value of an integer type written in decimal is read back as itself, numbers outside the parsed width and texts of the wrong kind (scalar for array, null) are refused; unsubscribing stops the stream; the static-metadata tree names exactly the signals whose path starts with the requested text, each with its registered entry type, data type and allowed list (c20_metadata_sound / _complete). Tied to the code on every run: histories issue reads, target writes and subscriptions alternately over the real VISS websocket server (viss::server::serve on loopback, tokio-tungstenite client, tokens signed per principal) and over the gRPC handlers / core API against ONE broker; every reply, every event (value and timestamp) and a full state dump after each write are diffed against the extracted model; an oracle rewrites the VISS traffic into the equivalent core operations for the shared C01/C02/C03/C04/C07 monitors and adds the VISS clauses (rights, text acceptance iff well-formed and in range, replies carrying the request id, raw malformed frames).",
+    "text": "Coq model of the VISS v2 front-end on the broker core (Model/Viss.v: token resolution per request, get / set / subscribe / unsubscribe, the text codec Value::try_into_type with Rust's integer and boolean grammars and correctly rounded decimal float literals, event conversion). Theorems: a VISS get yields a datapoint exactly when kuksa.val.v2 GetValue with the same token does, the same stored datapoint, and is refused for the same cause; without a token / with one that does not verify every data request (get, set, subscribe) is answered token_missing / token_invalid (static metadata is served without a token: the server's documented choice, no value is involved); a set is accepted iff the path is an actuator, the text parses to its data type and the core accepts the typed value as a target update from that token (the very update v1 Set issues); a refused set leaves the store unchanged; every value of an integer type written in decimal is read back as itself, numbers outside the parsed width and texts of the wrong kind (scalar for array, null) are refused; unsubscribing stops the stream; the static-metadata tree names exactly the signals whose path starts with the requested text, each with its registered entry type, data type and allowed list (c20_metadata_sound / _complete). Tied to the code on every run: histories issue reads, target writes and subscriptions alternately over the real VISS websocket server (viss::server::serve on loopback, tokio-tungstenite client, tokens signed per principal) and over the gRPC handlers / core API against ONE broker; every reply, every event (value and timestamp) and a full state dump after each write are diffed against the extracted model; an oracle rewrites the VISS traffic into the equivalent core operations for the shared C01/C02/C03/C04/C07 monitors and adds the VISS clauses (rights, text acceptance iff well-formed and in range, replies carrying the request id, raw malformed frames). Static metadata over VISS (get with the static-metadata filter): model Viss.viss_metadata, theorems c20_metadata_sound / c20_metadata_complete, oracle on entry type, data type, allowed list and description of every listed signal and on the selection (strict / liberal reading); long multi-byte frames and replies.",
     "note": "Trusted: Coq kernel; Flocq's 4 standard-library axioms (float texts); extraction + OCaml driver; harness/src/fam_viss.rs (websocket client, reading a value text back as a value of the signal's type with Rust's own parsers, RFC 3339 timestamps mapped to operation windows at millisecond resolution); vp/viss.py. Modelled, not verified: JSON framing and request ids (checked by the harness and the oracle, not by the model), unit / min / max in the static metadata (the server does not report them), float texts with exponents / inf / nan (not generated for comparison), expiry through VISS (a JWT's exp has second resolution: an expired token does not verify and answers token_invalid; covered by C06's rule for the decoder). Runtime behaviour outside the model: the server forwards events through a 10-slot queue with try_send - a client that does not read its socket loses the NEWEST events (DESIGN.md, limits); the harness reads after every operation (a barrier request).",
 }
 RULE = ("seeded histories of 10-40 operations over 4-8 signals (about 65% actuators, every data type incl. arrays, "
